@@ -230,7 +230,7 @@ def check(run):
     jobs = [(b, i, 8) for b in ('numpy', 'torch') for i in range(8)]
     run.absorb(core.pool_map('vk.c07_gradpure', 'enum_shard', jobs))
     run.exhaustive = True
-    run.min_class_fraction = {'outcome:raised-in-fn': 0.3}
+    run.min_class_fraction = {'outcome:raised-in-fn': 0.15}
 
 
 def replay(case):
